@@ -7,9 +7,14 @@
        quantity that comes from BBR's bandwidth / inflight model (max_inflight, filled_pipe,
        delivered bytes, ProbeRTT, probe_rtt_cwnd, the state dependent cap, inflight_lo, the f32
        rescale) is an arbitrary oracle input.
-   (2) The executable history model used for differential runs keeps bytes_in_flight exactly and
-       takes the implementation's own window after each step as the oracle's answer, confined to
-       the envelope that level (1) allows: [minimum_window, (largest window so far) + newly acked]. *)
+   (2) The executable history model used for differential runs keeps exactly: bytes_in_flight,
+       the recovery state, the delivery-rate estimator's counters (delivered / lost bytes, the
+       application-limited marker), prior_cwnd (save_cwnd / restore_cwnd) and the f32 rescale of
+       on_mtu_update.  The state kind, filled_pipe, inflight_hi and inflight_lo after a step are
+       oracle answers (the implementation's own values), accepted only along the transitions the
+       code allows; the window after on_ack is an oracle answer confined to what set_cwnd can
+       produce from them: unchanged (after restore_cwnd), or within
+       [minimum_window, min(window + newly acked, bound_cwnd_for_model)]. *)
 From SQ Require Import lib.Base gen.Gen_C10.
 From SQ Require model.Cubic.
 Import Cubic.
@@ -28,16 +33,26 @@ Definition bbr_initial_window (m : N) : N :=
 
 Record bbr_oracle := mkO {
   filled_pipe : bool;        (* full_pipe_estimator.filled_pipe() *)
-  max_inflight : N;          (* self.max_inflight() as u32 (saturated) *)
+  raw_inflight : N;          (* bdp * cwnd_gain + extra_acked, before quantization_budget *)
+  offload_budget : N;        (* 3 * send_quantum *)
+  probing_up : bool;         (* state.is_probing_bw_up() *)
   delivered_small : bool;    (* bw_estimator.delivered_bytes() < 2 * initial_cwnd *)
   probing_rtt : bool;        (* state.is_probing_rtt() *)
-  probe_rtt_cwnd : N;
+  raw_probe_rtt_cwnd : N;    (* bdp * probe_rtt::CWND_GAIN *)
   cap : N;                   (* inflight_hi / inflight_with_headroom() / u32::MAX according to the state *)
   inflight_lo : N
 }.
 
 Definition bound_cwnd_for_model (m : N) (o : bbr_oracle) : N :=
   N.max (N.min (cap o) (inflight_lo o)) (bbr_min_window m).
+
+(* quantization_budget / max_inflight (saturated to u32), probe_rtt_cwnd: each applies its own
+   floor at minimum_window *)
+Definition max_inflight (m : N) (o : bbr_oracle) : N :=
+  let i := N.max (N.max (raw_inflight o) (offload_budget o)) (bbr_min_window m) in
+  N.min (if probing_up o then i + 2 * m else i) u32_max.
+Definition probe_rtt_cwnd (m : N) (o : bbr_oracle) : N :=
+  N.max (N.min (raw_probe_rtt_cwnd o) u32_max) (bbr_min_window m).
 
 (* u32::clamp (lo <= hi is asserted by the standard library) *)
 Definition clamp (x lo hi : N) : N := if x <? lo then lo else if hi <? x then hi else x.
@@ -46,11 +61,21 @@ Definition clamp (x lo hi : N) : N := if x <? lo then lo else if hi <? x then hi
 Definition bbr_set_cwnd (cwnd m acked : N) (o : bbr_oracle) : option N :=
   let c1 := if filled_pipe o
             then let c := N.min (cwnd + acked) u32_max in           (* saturating_add *)
-                 if max_inflight o <=? c then max_inflight o else c
-            else if (cwnd <? max_inflight o) || delivered_small o then cwnd + acked else cwnd in
+                 if max_inflight m o <=? c then max_inflight m o else c
+            else if (cwnd <? max_inflight m o) || delivered_small o then cwnd + acked else cwnd in
   if u32_max <? c1 then None else
-  let c2 := if probing_rtt o then N.min c1 (probe_rtt_cwnd o) else c1 in
+  let c2 := if probing_rtt o then N.min c1 (probe_rtt_cwnd m o) else c1 in
   Some (clamp c2 (bbr_min_window m) (bound_cwnd_for_model m o)).
+
+(* the same without the final lower clamp: the value before `.clamp(minimum_window, ..)` bounded
+   above only (used to show the lower clamp never binds) *)
+Definition bbr_set_cwnd_unclamped (cwnd m acked : N) (o : bbr_oracle) : N :=
+  let c1 := if filled_pipe o
+            then let c := N.min (cwnd + acked) u32_max in
+                 if max_inflight m o <=? c then max_inflight m o else c
+            else if (cwnd <? max_inflight m o) || delivered_small o then cwnd + acked else cwnd in
+  let c2 := if probing_rtt o then N.min c1 (probe_rtt_cwnd m o) else c1 in
+  N.min c2 (bound_cwnd_for_model m o).
 
 Definition bbr_restore_cwnd (cwnd prior : N) : N := N.max cwnd prior.
 Definition bbr_save_cwnd (cwnd prior : N) : N := N.max prior cwnd.
@@ -58,59 +83,187 @@ Definition bbr_save_cwnd (cwnd prior : N) : N := N.max prior cwnd.
 Definition bbr_mtu_cwnd (raw m : N) : N := N.max raw (bbr_initial_window m).
 
 (* ---- level (2): executable history model ---- *)
-Record bstate := mkB { bmds : N; bcwnd : N; bbif : N; bmaxw : N }.
+Definition u64_max' : N := 18446744073709551615.
+
+(* state kinds: 0 Startup, 1 Drain, 2 ProbeBw Down, 3 Cruise, 4 Refill, 5 Up, 6 ProbeRtt *)
+Record bstate := mkB {
+  bmds : N; bcwnd : N; bprior : N; bbif : N;
+  bkind : N; bfilled : bool; bhi : N; blo : N;
+  bdeliv : N; blost : N; bapp : option N;          (* bw_estimator: delivered, lost, app-limited marker *)
+  brec : option (N * bool);                         (* recovery_state: Recovering(start, requires transmission) *)
+  bq : list (N * N);                                (* harness side: outstanding packets (bytes left, sent time) *)
+  blast : option N                                  (* harness side: send time of the last packet *)
+}.
 
 Definition binit (m : N) : bstate :=
-  {| bmds := m; bcwnd := bbr_initial_window m; bbif := 0; bmaxw := bbr_initial_window m |}.
+  {| bmds := m; bcwnd := bbr_initial_window m; bprior := 0; bbif := 0; bkind := 0; bfilled := false;
+     bhi := u64_max'; blo := u64_max'; bdeliv := 0; blost := 0; bapp := None; brec := None; bq := []; blast := None |}.
 
-Definition bstep (s : bstate) (o : op) (a : N) : option bstate :=
+Definition sat32 (x : N) : N := N.min x u32_max.
+Definition is_pbw (k : N) : bool := (2 <=? k) && (k <=? 5).
+
+(* inflight_with_headroom and bound_cwnd_for_model from the state kind and the two bounds *)
+Definition headroom (hi m : N) : N :=
+  if hi =? u64_max' then u32_max
+  else N.max (sat32 (bbr_headroom_num * hi / bbr_headroom_den)) (bbr_min_window m).
+Definition bound_of (k hi lo m : N) : N :=
+  let cap := if (k =? 2) || (k =? 4) || (k =? 5) then sat32 hi
+             else if (k =? 6) || (k =? 3) then headroom hi m
+             else u32_max in
+  N.max (N.min cap (sat32 lo)) (bbr_min_window m).
+
+(* transitions on_ack may take in one call (f' = filled_pipe afterwards) *)
+Definition legal_ack (k k' : N) (f' : bool) : bool :=
+  ((k' =? k) ||
+   match k with
+   | 0 => (k' =? 1) || is_pbw k' || (k' =? 6)
+   | 1 => is_pbw k' || (k' =? 6)
+   | 6 => ((k' =? 0) && negb f') || ((k' =? 3) && f')
+   | _ => if is_pbw k then is_pbw k' || (k' =? 6) else false
+   end)
+  && (if (k' =? 1) || is_pbw k' then f' else true).
+
+(* removes n bytes from the oldest packets; the send time of the last packet touched *)
+Fixpoint take (q : list (N * N)) (n : N) (hit : option N) : list (N * N) * option N :=
+  match q with
+  | [] => ([], hit)
+  | (b, t) :: r =>
+      if n =? 0 then (q, hit)
+      else if n <? b then ((b - n, t) :: r, Some t)
+      else take r (n - b) (Some t)
+  end.
+
+Definition app_mark (s : bstate) (b : N) (app : N) : option N :=
+  match app with
+  | 1 => bapp s                                                      (* Some(false) *)
+  | _ => Some (bdeliv s + sat32 (bbif s + b))                        (* None / Some(true) *)
+  end.
+
+Definition clear_req_b (r : option (N * bool)) : option (N * bool) :=
+  match r with Some (t, true) => Some (t, false) | _ => r end.
+Definition congestion_b (r : option (N * bool)) (now : N) : option (N * bool) :=
+  match r with None => Some (now, true) | _ => r end.
+
+Record banswer := mkA { a_cwnd : N; a_kind : N; a_filled : bool; a_hi : N; a_lo : N }.
+
+Definition upd (s : bstate) (c p b k : N) (f : bool) (hi lo : N) : bstate :=
+  {| bmds := bmds s; bcwnd := c; bprior := p; bbif := b; bkind := k; bfilled := f; bhi := hi; blo := lo;
+     bdeliv := bdeliv s; blost := blost s; bapp := bapp s; brec := brec s; bq := bq s; blast := blast s |}.
+
+Definition bstep (s : bstate) (o : op) (a : banswer) : option bstate :=
   match o with
-  | Sent bytes _ =>
-      if bytes =? 0 then Some s else
+  | Sent bytes app =>
+      let now := match app with _ => 0 end in
       if u32_max <? bbif s + bytes then None else
-      Some {| bmds := bmds s; bcwnd := bcwnd s; bbif := bbif s + bytes; bmaxw := bmaxw s |}
+      Some {| bmds := bmds s; bcwnd := bcwnd s; bprior := bprior s; bbif := bbif s + bytes;
+              bkind := bkind s; bfilled := bfilled s; bhi := bhi s; blo := blo s;
+              bdeliv := bdeliv s; blost := blost s; bapp := app_mark s bytes app;
+              brec := if bytes =? 0 then brec s else clear_req_b (brec s);
+              bq := bq s; blast := blast s |}
   | Ack bytes _ _ =>
-      if bbif s <? bytes then None else
-      let c := N.max (bbr_min_window (bmds s)) (N.min a (bmaxw s + bytes)) in
-      Some {| bmds := bmds s; bcwnd := c; bbif := bbif s - bytes; bmaxw := N.max (bmaxw s) c |}
-  | Lost bytes _ _ =>
+      let '(q', hit) := take (bq s) bytes None in
+      match (match hit with Some t => Some t | None => blast s end) with
+      | None => Some s
+      | Some st =>
+          if bbif s <? bytes then None else
+          let d' := bdeliv s + bytes in
+          let app' := match bapp s with Some x => if x <? d' then None else Some x | None => None end in
+          let rec' := match brec s with Some (t, r) => if t <? st then None else Some (t, r) | None => None end in
+          let f' := if bfilled s then true else a_filled a in
+          let k' := if legal_ack (bkind s) (a_kind a) f' then a_kind a else 7 in
+          let p' := if negb (bkind s =? 6) && (k' =? 6) then N.max (bprior s) (bcwnd s) else bprior s in
+          let restored := if (bkind s =? 6) && negb (k' =? 6) then N.max (bcwnd s) p' else bcwnd s in
+          let bound := bound_of k' (a_hi a) (a_lo a) (bmds s) in
+          let c' := if a_cwnd a =? restored then restored
+                    else N.max (bbr_min_window (bmds s)) (N.min (a_cwnd a) (N.min (restored + bytes) bound)) in
+          Some {| bmds := bmds s; bcwnd := c'; bprior := p'; bbif := bbif s - bytes;
+                  bkind := k'; bfilled := f'; bhi := a_hi a; blo := a_lo a;
+                  bdeliv := d'; blost := blost s; bapp := app'; brec := rec'; bq := q'; blast := blast s |}
+      end
+  | Lost bytes _ now =>
       if (bytes =? 0) || (bbif s <? bytes) then None else
-      Some {| bmds := bmds s; bcwnd := bcwnd s; bbif := bbif s - bytes; bmaxw := bmaxw s |}
-  | Ecn _ => Some s
+      let '(q', _) := take (bq s) bytes None in
+      let k' := if (a_kind a =? bkind s) || ((bkind s =? 5) && (a_kind a =? 2)) then a_kind a else 7 in
+      Some {| bmds := bmds s; bcwnd := bcwnd s; bprior := bprior s; bbif := bbif s - bytes;
+              bkind := k'; bfilled := bfilled s; bhi := a_hi a; blo := a_lo a;
+              bdeliv := bdeliv s; blost := blost s + bytes;
+              bapp := match bapp s with Some x => Some (x - bytes) | None => None end;
+              brec := congestion_b (brec s) now; bq := q'; blast := blast s |}
+  | Ecn now =>
+      Some {| bmds := bmds s; bcwnd := bcwnd s; bprior := bprior s; bbif := bbif s;
+              bkind := bkind s; bfilled := bfilled s; bhi := bhi s; blo := blo s;
+              bdeliv := bdeliv s; blost := blost s; bapp := bapp s;
+              brec := congestion_b (brec s) now; bq := bq s; blast := blast s |}
   | Mtu m =>
-      let c := bbr_mtu_cwnd a m in
-      Some {| bmds := m; bcwnd := c; bbif := bbif s; bmaxw := N.max (bmaxw s) c |}
+      (* ((cwnd as f32 / old as f32) * new as f32) as u32, then max with the initial window *)
+      let raw := sat32 (fdivmul (round24 (bcwnd s)) (bmds s) m) in
+      Some {| bmds := m; bcwnd := bbr_mtu_cwnd raw m; bprior := bprior s; bbif := bbif s;
+              bkind := bkind s; bfilled := bfilled s; bhi := bhi s; blo := blo s;
+              bdeliv := bdeliv s; blost := blost s; bapp := bapp s; brec := brec s; bq := bq s; blast := blast s |}
   | Discard bytes =>
       if bbif s <? bytes then None else
-      Some {| bmds := bmds s; bcwnd := bcwnd s; bbif := bbif s - bytes; bmaxw := bmaxw s |}
+      let '(q', _) := take (bq s) bytes None in
+      Some {| bmds := bmds s; bcwnd := bcwnd s; bprior := bprior s; bbif := bbif s - bytes;
+              bkind := bkind s; bfilled := bfilled s; bhi := bhi s; blo := blo s;
+              bdeliv := bdeliv s; blost := blost s;
+              bapp := match bapp s with Some x => Some (x - bytes) | None => None end;
+              brec := clear_req_b (brec s); bq := bq s; blast := blast s |}
   | Nop => Some s
   end.
 
-(* rows: congestion_window(), bytes_in_flight(), is_congestion_limited() *)
-Definition brow (s : bstate) : list Z :=
-  [Nz (bcwnd s); Nz (bbif s); bz (bcwnd s - bbif s <? bmds s)].
-
-Definition bnext_answer (rows : list Z) : N * list Z :=
-  match rows with
-  | a :: _ :: _ :: t => (zN a, t)
-  | _ => (0, [])
+(* the harness keeps its own packet queue: a send enqueues (bytes, now) and records the time *)
+Definition note_sent (s : bstate) (o : op) (now : N) : bstate :=
+  match o with
+  | Sent bytes _ =>
+      {| bmds := bmds s; bcwnd := bcwnd s; bprior := bprior s; bbif := bbif s;
+         bkind := bkind s; bfilled := bfilled s; bhi := bhi s; blo := blo s;
+         bdeliv := bdeliv s; blost := blost s; bapp := bapp s; brec := brec s;
+         bq := if bytes =? 0 then bq s else bq s ++ [(bytes, now)]; blast := Some now |}
+  | Discard _ => s
+  | _ => s
   end.
 
-Fixpoint breplay_from (s : bstate) (ops : list op) (rows : list Z) : list Z :=
+(* rows (13): congestion_window(), bytes_in_flight(), is_congestion_limited(),
+   requires_fast_retransmission(), state kind, filled_pipe, prior_cwnd, inflight_hi, inflight_lo,
+   delivered_bytes, lost_bytes, application limited, recovery (0 / 1 idle / 2 requires transmission) *)
+Definition brow (s : bstate) : list Z :=
+  [Nz (bcwnd s); Nz (bbif s); bz (bcwnd s - bbif s <? bmds s);
+   bz (match brec s with Some (_, true) => true | _ => false end);
+   Nz (bkind s); bz (bfilled s); Nz (bprior s); Nz (bhi s); Nz (blo s);
+   Nz (bdeliv s); Nz (blost s); bz (match bapp s with Some _ => true | None => false end);
+   (match brec s with None => 0 | Some (_, false) => 1 | Some (_, true) => 2 end)%Z].
+
+Definition bnext_answer (rows : list Z) : banswer * list Z :=
+  match rows with
+  | c :: _ :: _ :: _ :: k :: f :: _ :: hi :: lo :: _ :: _ :: _ :: _ :: t =>
+      ({| a_cwnd := zN c; a_kind := zN k; a_filled := negb (f =? 0)%Z; a_hi := zN hi; a_lo := zN lo |}, t)
+  | _ => ({| a_cwnd := 0; a_kind := 0; a_filled := false; a_hi := 0; a_lo := 0 |}, [])
+  end.
+
+(* the time of each operation (the same clock as Cubic.decode) *)
+Fixpoint times (now : N) (l : list Z) : list N :=
+  match l with
+  | _ :: _ :: _ :: _ :: dt :: t => (now + zN dt) :: times (now + zN dt) t
+  | _ => []
+  end.
+
+Fixpoint breplay_from (s : bstate) (ops : list op) (ts : list N) (rows : list Z) : list Z :=
   match ops with
   | [] => []
   | o :: t =>
       let '(a, rows') := bnext_answer rows in
+      let now := hd 0 ts in
       match bstep s o a with
       | None => [(-1)%Z]
-      | Some s' => brow s' ++ breplay_from s' t rows'
+      | Some s' => let s'' := note_sent s' o now in brow s'' ++ breplay_from s'' t (tl ts) rows'
       end
   end.
 
 Definition breplay (case rows : list Z) : list Z :=
   match case with
   | [] => []
-  | m :: t => let s := binit (zN m) in brow s ++ breplay_from s (decode 0 t) (snd (bnext_answer rows))
+  | m :: t => let s := binit (zN m) in
+              brow s ++ breplay_from s (decode 0 t) (times 0 t) (snd (bnext_answer rows))
   end.
 
 Definition run (l : list Z) : list Z := let '(c, r) := split_at_neg l in breplay c r.
@@ -143,7 +296,7 @@ Fixpoint bjudge_from (j : bj) (ops : list op) (rows : list Z) : bool :=
   | o :: t =>
       if negb (bjvalid j o) then true else
       match rows with
-      | w :: b :: _ :: rows' =>
+      | w :: b :: _ :: _ :: _ :: _ :: _ :: _ :: _ :: _ :: _ :: _ :: _ :: rows' =>
           if (w <? 0)%Z || (b <? 0)%Z then false else
           let '(ok, j') := bjstep j o (zN w) (zN b) in
           ok && bjudge_from j' t rows'
@@ -156,7 +309,7 @@ Definition judge (case rows : list Z) : bool :=
   | [] => true
   | m :: t =>
       match rows with
-      | w :: b :: _ :: rows' =>
+      | w :: b :: _ :: _ :: _ :: _ :: _ :: _ :: _ :: _ :: _ :: _ :: _ :: rows' =>
           let m := zN m in
           (0 <=? w)%Z && (bbr_min_window m <=? zN w) && (zN w <? u32_max) && (b =? 0)%Z
           && bjudge_from {| bjm := m; bjb := 0 |} (decode 0 t) rows'
